@@ -50,6 +50,10 @@ def run_property(pid, tier, repo, seed=0, strict=False):
         rules.append((f"{pid}-RN", "optional (None-default) parameters of "
                       "the anchored code are never dereferenced unguarded",
                       lambda c, files=files: nonedefault.rule(c, files)))
+        from . import swallow
+        rules.append((f"{pid}-RE", "broad exception handlers of the "
+                      "anchored code re-raise on every path",
+                      lambda c, files=files: swallow.rule(c, files)))
     if tier == "thorough":
         rules += list(getattr(mod, "THOROUGH_RULES", []))
     for rid, _title, fn in rules:
